@@ -15,7 +15,8 @@ from .stops_py import STr
 OUTPUTS = ["GenFilters.v"]
 SRC = "pyhms/sprout/sprout_filters.py"
 COQTY.update({"cmap": "cmap", "deme_list": "(list nat)", "natlist": "(list nat)"})
-LISTS = {"deme_list": "deme", "nat_list": "nat", "inds": "ind"}
+COQTY.update({"llist": "(list (list nat))"})
+LISTS = {"deme_list": "deme", "nat_list": "nat", "inds": "ind", "llist": "deme_list"}
 
 
 class FTr(STr):
@@ -23,6 +24,7 @@ class FTr(STr):
         super().__init__(src, cls, fname, "tree", params)
         self.rettype = "cmap"
         self.mod = mod
+        self.levels_as_numbers = True
 
     # ---------------------------------------------------------------- expressions
     def comp(self, e, env, pre):
@@ -59,9 +61,47 @@ class FTr(STr):
             return V(inner, out_ty)
         return V(f"(flat_map (fun {binders[0]} => {inner}) {its[0][0]})", out_ty)
 
+    def dictcomp(self, e, env, pre):
+        """{deme: DemeCandidates(individuals=..., features=...) for level in <levels> for deme in level if cond}"""
+        env2 = dict(env)
+        srcs, binders = [], []
+        for g in e.generators:
+            it = self._expr(g.iter, env2, pre)
+            if it.ty not in ("llist", "deme_list") or not isinstance(g.target, ast.Name):
+                self.bad(e, f"dict comprehension over {it.ty}")
+            x = "v_" + g.target.id
+            env2[g.target.id] = V(x, "deme_list" if it.ty == "llist" else "deme")
+            src = it.code
+            for cnd in g.ifs:
+                cv = self._expr(cnd, env2, pre)
+                if cv.ty != "bool":
+                    self.bad(cnd, "filter")
+                src = f"(filter (fun {x} => {cv.code}) {src})"
+            srcs.append(src)
+            binders.append(x)
+        k, v = self._expr(e.key, env2, pre), self._expr(e.value, env2, pre)
+        if k.ty != "deme" or k.code != binders[-1] or v.ty != "cands":
+            self.bad(e, "dict comprehension entry")
+        inner = f"(map (fun {binders[-1]} => ({k.code}, {v.code})) {srcs[-1]})"
+        for x, src in zip(reversed(binders[:-1]), reversed(srcs[:-1])):
+            inner = f"(flat_map (fun {x} => {inner}) {src})"
+        return V(inner, "cmap")
+
     def _expr(self, e, env, pre):
         if isinstance(e, ast.ListComp):
             return self.comp(e, env, pre)
+        if isinstance(e, ast.DictComp):
+            return self.dictcomp(e, env, pre)
+        if isinstance(e, ast.Dict) and not e.keys:
+            return V("[]", "cmap")
+        if isinstance(e, ast.List) and len(e.elts) == 1:
+            x = self._expr(e.elts[0], env, pre)
+            if x.ty == "ind":
+                return V(f"[{x.code}]", "inds")
+        if isinstance(e, ast.Compare) and len(e.ops) == 1 and isinstance(e.ops[0], ast.Eq):
+            a, b = self._expr(e.left, env, pre), self._expr(e.comparators[0], env, pre)
+            if a.ty == b.ty == "nat":
+                return V(f"(Nat.eqb {a.code} {b.code})", "bool")
         if isinstance(e, ast.Compare) and len(e.ops) == 1 and isinstance(e.ops[0], ast.IsNot) and isinstance(e.comparators[0], ast.Constant) and e.comparators[0].value is None \
                 and isinstance(e.left, ast.Attribute) and e.left.attr == "centroid":
             sib = self._expr(e.left.value, env, pre)
@@ -77,6 +117,14 @@ class FTr(STr):
         return super()._expr(e, env, pre)
 
     def attribute(self, e, env, pre):
+        if isinstance(e.value, ast.Name) and isinstance(env.get(e.value.id), V) and env[e.value.id].ty == "deme":
+            dm = env[e.value.id].code
+            if e.attr == "best_current_individual":
+                return V(f"(cur_best {dm})", "ind")          # oracle: the key of max(deme.current_population)
+            if e.attr == "best_individual":
+                return V(f"(hist_best {dm})", "ind")         # oracle: the key of max(deme.all_individuals)
+            if e.attr == "current_population":
+                return V(dm, "curpop")
         if isinstance(e.value, ast.Subscript) and e.attr == "individuals":
             b = self._expr(e.value, env, pre)
             if b.ty == "cands":
@@ -90,7 +138,12 @@ class FTr(STr):
             sl = e.slice
             if isinstance(sl, ast.Slice) and sl.lower is None and sl.step is None and isinstance(sl.upper, ast.UnaryOp) and isinstance(sl.upper.op, ast.USub) \
                     and isinstance(sl.upper.operand, ast.Constant) and sl.upper.operand.value == 1:
-                return V("(seq 0 (height c - 1))", "nat_list")
+                return V("(seq 0 (height c - 1))", "nat_list") if self.levels_as_numbers else V(f"(map (level_ids (demes {self.read(pre)})) (seq 0 (height c - 1)))", "llist")
+            if isinstance(sl, ast.Slice) and sl.lower is None and sl.step is None and isinstance(sl.upper, ast.UnaryOp) and isinstance(sl.upper.op, ast.USub) \
+                    and isinstance(sl.upper.operand, ast.Constant) and sl.upper.operand.value == 2:
+                return V(f"(map (level_ids (demes {self.read(pre)})) (seq 0 (height c - 2)))", "llist")
+            if isinstance(sl, ast.UnaryOp) and isinstance(sl.op, ast.USub) and isinstance(sl.operand, ast.Constant) and sl.operand.value == 2:
+                return V(f"(level_ids (demes {self.read(pre)}) (height c - 2))", "deme_list")
             i = self._expr(sl, env, pre)
             if i.ty != "nat":
                 self.bad(e, "level index")
@@ -111,6 +164,14 @@ class FTr(STr):
             if i.ty == "nat":
                 return V(f"(nth {i.code} {base.code} 0%Z)", "ind")
         self.bad(e, "subscript")
+
+    @staticmethod
+    def opaque_ok_features(e):
+        """DemeFeatures(...) values are not part of the model; they may only read the clustering object / constants"""
+        for n in ast.walk(e):
+            if isinstance(n, ast.Call) and dotted(n.func) not in ("DemeFeatures", "np.mean"):
+                return False
+        return True
 
     def helper_template(self, name, template):
         """the body of a one-line helper method of the filter class must be exactly `return <template>`"""
@@ -136,6 +197,25 @@ class FTr(STr):
                 if (ind.ty, sib.ty, ent.ty) == ("ind", "deme", "cands"):
                     par = self._expr(md.value.value.slice, env, pre)
                     return V(f"(Z.ltb (nbc_thr {par.code}) (dist {ind.code} {sib.code}))", "bool")
+        if d == "DemeCandidates" and not e.args and {k.arg for k in e.keywords} == {"individuals", "features"}:
+            kw = {k.arg: k.value for k in e.keywords}
+            inds = self._expr(kw["individuals"], env, pre)
+            if inds.ty == "inds" and self.opaque_ok_features(kw["features"]):
+                return V(inds.code, "cands")
+            self.bad(e, "DemeCandidates arguments")
+        if d == "NearestBetterClustering" and len(e.args) == 3:
+            pop = self._expr(e.args[0], env, pre)
+            if pop.ty == "curpop" and dotted(e.args[1]) == "self.distance_factor" and dotted(e.args[2]) == "self.truncation_factor":
+                return V(pop.code, "nbcobj")      # clustering of THAT deme's current population
+            self.bad(e, "NearestBetterClustering arguments")
+        if isinstance(e.func, ast.Attribute) and e.func.attr == "cluster" and not e.args:
+            o = self._expr(e.func.value, env, pre)
+            if o.ty == "nbcobj":
+                return V(f"(nbc_cluster {o.code})", "inds")   # oracle: what nearest-better clustering returns for that population (C15)
+        if d == "len" and len(e.args) == 1 and isinstance(e.args[0], ast.Attribute) and e.args[0].attr == "_history":
+            dm = self._expr(e.args[0].value, env, pre)
+            if dm.ty == "deme":
+                return V(f"(S (d_meta (dnth {dm.code} (demes {self.read(pre)}))))", "nat")   # metaepoch_count = len(_history) - 1
         if d == "sorted" and len(e.args) == 1 and [k.arg for k in e.keywords] == ["reverse"] and isinstance(e.keywords[0].value, ast.Constant) and e.keywords[0].value.value is True:
             v = self._expr(e.args[0], env, pre)
             if v.ty == "inds":
@@ -163,6 +243,8 @@ class FTr(STr):
                     t = n.func.value.id
                 if isinstance(n, ast.Assign) and len(n.targets) == 1 and isinstance(n.targets[0], ast.Name):
                     t = n.targets[0].id
+                if isinstance(n, ast.Assign) and len(n.targets) == 1 and isinstance(n.targets[0], ast.Subscript) and isinstance(n.targets[0].value, ast.Name):
+                    t = n.targets[0].value.id
                 if t and isinstance(env.get(t), V) and env[t].ty in ("cmap", "inds") and t not in out:
                     out.append(t)
         return out
@@ -198,9 +280,23 @@ class FTr(STr):
                 new = "v_" + nm
                 env[nm] = V(new, "cmap")
                 return " ".join(pre + p2) + f" let {new} := cm_set {cm.code} {key.code} {val.code} in\n  " + go(env)
+            if isinstance(t, ast.Subscript) and isinstance(t.value, ast.Name) and isinstance(env.get(t.value.id), V) and env[t.value.id].ty == "cmap":
+                nm = t.value.id
+                env = dict(env)
+                cm = env[nm]
+                pre, key = self.expr(t.slice, env)
+                p2, val = self.expr(s.value, env)
+                if key.ty == "deme" and val.ty == "cands":
+                    new = "v_" + nm
+                    env[nm] = V(new, "cmap")
+                    return " ".join(pre + p2) + f" let {new} := cm_add {cm.code} {key.code} {val.code} in\n  " + go(env)
+                self.bad(s, "new candidate entry")
             if isinstance(t, ast.Name):
                 env2 = dict(env)
                 pre, v = self.expr(s.value, env2)
+                if v.ty == "nbcobj":
+                    env2[t.id] = v
+                    return " ".join(pre) + " " + go(env2)
                 if v.ty in ("deme_list", "nat_list", "inds", "ind", "cmap"):
                     nm = "v_" + t.id
                     env2[t.id] = V(nm, v.ty)
@@ -235,10 +331,19 @@ class FTr(STr):
             inner[nm] = V("v_" + nm, env[nm].ty)
             body = self.block(s.body, inner, lambda e2: f"ret {e2[nm].code}", None)
             lty = COQTY[env[nm].ty] if env[nm].ty != "inds" else "(list Z)"
-            self.aux.append(f"Definition {self.fname}_forl{k_id} {decl}(v_{nm} : {lty}) ({x} : nat) : D {lty} :=\n  {body}.\n")
+            xty = "(list nat)" if it.ty == "llist" else "nat"
+            self.aux.append(f"Definition {self.fname}_forl{k_id} {decl}(v_{nm} : {lty}) ({x} : {xty}) : D {lty} :=\n  {body}.\n")
             after = dict(env)
             after[nm] = V("v_" + nm, env[nm].ty)
             return " ".join(pre) + f" v_{nm} <- forl_ {it.code} ({self.fname}_forl{k_id} {use}) {env[nm].code} ;;\n  " + go(after)
+        if isinstance(s, ast.If) and not s.orelse:
+            # `if cond: <updates of the tracked dictionary>` inside a loop body: both branches continue with the (possibly updated) dictionary
+            env = dict(env)
+            pre, t = self.expr(s.test, env)
+            if t.ty == "bool":
+                a = self.block(s.body, dict(env), lambda e2: self.block(rest, e2, k, ret), ret)
+                b = self.block(rest, dict(env), k, ret)
+                return " ".join(pre) + f"\n  (if {t.code} then ({a}) else ({b}))"
         return super().block(stmts, env, k, ret)
 
 
@@ -282,12 +387,109 @@ def translate_one(repo, which):
     return {"GenFar.v": "\n".join(out)}, [f"{SRC}:{c}.__call__" for c in ("FarEnough", "NBC_FarEnough")]
 
 
+def generator_method(mod, src, cls, fname):
+    fn = find_def(mod, "__call__", cls)
+    argn = [a.arg for a in fn.args.args]
+    if argn != ["self", "tree"]:
+        raise Unsupported(f"{src}:{fn.lineno}: {cls}.__call__ signature changed: {argn}")
+    tr = FTr(src, cls, fname, {}, mod)
+    tr.levels_as_numbers = False
+    env = {"tree": V("tree", "treeobj", deps=set())}
+    body = tr.block(fn.body, env, lambda e2: "ret None", None)
+    return "".join(a + "\n" for a in tr.aux) + f"Definition {fname} (c : cfg) (fuel : nat) : D cmap :=\n  returned ({body}).\n"
+
+
+GSRC = "pyhms/sprout/sprout_generators.py"
+
+
+def translate_generators(repo):
+    mod = ast.parse(open(f"{repo}/{GSRC}").read())
+    out = ["(* GENERATED from pyhms/sprout/sprout_generators.py by hv/translate/filters_py.py — do not edit *)"] + HEADER
+    out.append("(* oracles: cur_best d = the key of deme d's best_current_individual, hist_best d = of its best_individual (both tied to the stored history by\n"
+               "   Gen/GenAccessors.v), nbc_cluster d = the keys nearest-better clustering returns for deme d's CURRENT population (C15) *)")
+    out.append("Section Generators.\nVariable cur_best : nat -> Z.\nVariable hist_best : nat -> Z.\nVariable nbc_cluster : nat -> list Z.\n")
+    for cls in ("BestPerDeme", "NBC_Generator", "NBCGeneratorWithLocalMethod"):
+        out.append(generator_method(mod, GSRC, cls, f"gen_{cls}"))
+    out.append("End Generators.\n")
+    return {"GenGenerators.v": "\n".join(out)}, [f"{GSRC}:{c}.__call__" for c in ("BestPerDeme", "NBC_Generator", "NBCGeneratorWithLocalMethod")]
+
+
+MSRC = "pyhms/sprout/sprout_mechanisms.py"
+
+
+def _is_bookkeeping(stmt):
+    """statements of SproutMechanism.get_seeds that only feed the plotting history (deep copies of {deme.id: candidates} appended to
+    self._generated/_used..._history): no effect on the candidates or on modelled state"""
+    if isinstance(stmt, ast.Assign) and len(stmt.targets) == 1 and isinstance(stmt.targets[0], ast.Name) and isinstance(stmt.value, ast.Call) \
+            and dotted(stmt.value.func) == "copy.deepcopy" and len(stmt.value.args) == 1 and isinstance(stmt.value.args[0], ast.DictComp):
+        dc = stmt.value.args[0]
+        return not any(isinstance(n, ast.Call) and dotted(n.func) != "candidates.items" for n in ast.walk(dc))
+    if isinstance(stmt, ast.Expr) and isinstance(stmt.value, ast.Call) and isinstance(stmt.value.func, ast.Attribute) and stmt.value.func.attr == "append":
+        d = dotted(stmt.value.func.value)
+        return d is not None and d.startswith("self._") and d.endswith("_history") and len(stmt.value.args) == 1 and isinstance(stmt.value.args[0], ast.Name)
+    return False
+
+
+def translate_mechanism(repo):
+    mod = ast.parse(open(f"{repo}/{MSRC}").read())
+    out = ["(* GENERATED from pyhms/sprout/sprout_mechanisms.py (SproutMechanism) by hv/translate/filters_py.py — do not edit *)"] + HEADER
+    out.append("(* the configured generator and filters are objects of the mechanism: calling one is `generator` / `apply_filter f candidates` *)")
+    out.append("Section Mechanism.\nVariable F : Type.\nVariable generator : D cmap.\nVariable apply_filter : F -> cmap -> D cmap.\n")
+    for meth, chain in (("apply_deme_filters", "deme_filter_chain"), ("apply_tree_filters", "tree_filter_chain")):
+        fn = find_def(mod, meth, "SproutMechanism")
+        a = [x.arg for x in fn.args.args]
+        body = [s_ for s_ in fn.body if not (isinstance(s_, ast.Expr) and isinstance(s_.value, ast.Constant))]
+        ok = (len(a) == 3 and len(body) == 2 and isinstance(body[0], ast.For) and dotted(body[0].iter) == f"self.{chain}" and isinstance(body[0].target, ast.Name)
+              and len(body[0].body) == 1 and not body[0].orelse and isinstance(body[1], ast.Return) and isinstance(body[1].value, ast.Name) and body[1].value.id == a[1])
+        if ok:
+            st = body[0].body[0]
+            ok = (isinstance(st, ast.Assign) and isinstance(st.targets[0], ast.Name) and st.targets[0].id == a[1] and isinstance(st.value, ast.Call)
+                  and isinstance(st.value.func, ast.Name) and st.value.func.id == body[0].target.id and [ast.unparse(x) for x in st.value.args] == [a[1], a[2]] and not st.value.keywords)
+        if not ok:
+            raise Unsupported(f"{MSRC}:{fn.lineno}: SproutMechanism.{meth} is not `for f in self.{chain}: candidates = f(candidates, tree)` followed by `return candidates`")
+        out.append(f"Definition gen_{meth} ({chain} : list F) (v_candidates : cmap) : D cmap :=\n  forl_ {chain} (fun v_candidates v_filter => apply_filter v_filter v_candidates) v_candidates.\n")
+    fn = find_def(mod, "get_seeds", "SproutMechanism")
+    body = [s_ for s_ in fn.body if not (isinstance(s_, ast.Expr) and isinstance(s_.value, ast.Constant)) and not _is_bookkeeping(s_)]
+    want = ["candidates = self.candidates_generator(tree)", "candidates = self.apply_deme_filters(candidates, tree)", "candidates = self.apply_tree_filters(candidates, tree)",
+            "return {k: v for k, v in candidates.items() if candidates[k].individuals}"]
+    got = [ast.unparse(s_) for s_ in body]
+    if got != want:
+        j = next((i for i, (x, y) in enumerate(zip(got, want)) if x != y), min(len(got), len(want)))
+        raise Unsupported(f"{MSRC}:{fn.lineno}: SproutMechanism.get_seeds, apart from the plotting history, is not generator -> deme filters -> tree filters -> "
+                          f"non-empty entries (statement {j}: {got[j] if j < len(got) else 'missing'})")
+    out.append("Definition gen_get_seeds (deme_filter_chain tree_filter_chain : list F) : D cmap :=\n"
+               "  v_candidates <- generator ;;\n  v_candidates <- gen_apply_deme_filters deme_filter_chain v_candidates ;;\n"
+               "  v_candidates <- gen_apply_tree_filters tree_filter_chain v_candidates ;;\n"
+               "  ret (filter (fun kv => negb (match cm_get v_candidates (fst kv) with [] => true | _ => false end)) v_candidates).\n")
+    out.append("End Mechanism.\n")
+    # the two shipped mechanisms: which generator, which chains
+    for name, gen, dchain, tchain in (("get_simple_sprout", "BestPerDeme", ["FarEnough"], ["LevelLimit"]), ("get_NBC_sprout", "NBC_Generator", ["NBC_FarEnough", "DemeLimit"], ["LevelLimit"])):
+        fn = find_def(mod, name)
+        ret = fn.body[-1]
+        ok = isinstance(ret, ast.Return) and isinstance(ret.value, ast.Call) and dotted(ret.value.func) == "SproutMechanism" and len(ret.value.args) == 3
+        if ok:
+            g, dc, tc = ret.value.args
+            ok = (isinstance(g, ast.Call) and dotted(g.func) == gen and isinstance(dc, ast.List) and [dotted(x.func) for x in dc.elts] == dchain
+                  and isinstance(tc, ast.List) and [dotted(x.func) for x in tc.elts] == tchain)
+        if not ok:
+            raise Unsupported(f"{MSRC}:{fn.lineno}: {name} no longer builds SproutMechanism({gen}, {dchain}, {tchain})")
+    out.append("(* get_simple_sprout = SproutMechanism(BestPerDeme, [FarEnough], [LevelLimit]); get_NBC_sprout = SproutMechanism(NBC_Generator, [NBC_FarEnough, DemeLimit], [LevelLimit]) *)")
+    out.append("Definition gen_shipped_mechanisms : list (nat * nat * nat) := [(1, 1, 1); (1, 2, 1)].\n")
+    return {"GenMechanism.v": "\n".join(out)}, [f"{MSRC}:SproutMechanism.{m}" for m in ("get_seeds", "apply_deme_filters", "apply_tree_filters")] + [f"{MSRC}:get_simple_sprout", f"{MSRC}:get_NBC_sprout"]
+
+
 class _FE:
     def __init__(self, which, outputs):
         self.which, self.OUTPUTS = which, outputs
 
     def translate(self, repo):
+        if self.which == "generators":
+            return translate_generators(repo)
+        if self.which == "mechanism":
+            return translate_mechanism(repo)
         return translate_one(repo, self.which)
 
 
 LEVELLIMIT, DEMELIMIT, FARFILTERS = _FE("levellimit", ["GenLevelLimit.v"]), _FE("demelimit", ["GenDemeLimit.v"]), _FE("farfilters", ["GenFar.v"])
+GENERATORS = _FE("generators", ["GenGenerators.v"])
+MECHANISM = _FE("mechanism", ["GenMechanism.v"])
